@@ -36,7 +36,8 @@ def run(ctx):
         if len(ctx.violations) > 10:
             break
     # ---- roles oracle: curated real instructions with architecturally known roles (harness/roles.py);
-    # the reference RAW relation uses nothing of OSACA (flag dependencies are per-flag in OSACA: not part of it)
+    # the reference RAW relation uses nothing of OSACA; every other kernel is analysed with flag dependencies
+    # (each status flag is an architectural register of its own)
     from harness import roles, corpus
     from osaca.semantics import MachineModel
 
@@ -45,18 +46,21 @@ def run(ctx):
     for t in range(nr):
         isa = "x86" if t % 2 == 0 else "aarch64"
         arch = ctx.rng.choice(corpus.archs_of(isa, ctx.tier == "quick"))
-        lines, rl = roles.gen(ctx.rng, isa, ctx.rng.randint(2, 8), npool=ctx.rng.choice([2, 3, 4]))
+        fd = (t // 2) % 2 == 1
+        lines, rl = roles.gen(ctx.rng, isa, ctx.rng.randint(2, 8), npool=ctx.rng.choice([2, 3, 4]), flags=fd)
         if arch not in mms:
             mms[arch] = MachineModel(arch=arch)
         try:
-            im = dgcheck.Impl(isa, arch, lines, False, mms[arch])
+            im = dgcheck.Impl(isa, arch, lines, fd, mms[arch])
         except Exception as e:  # noqa
             ctx.violation("analysis of a vocabulary kernel raised %s: %s" % (type(e).__name__, e),
                           {"isa": isa, "arch": arch, "kernel": lines, "exception": type(e).__name__})
             continue
         ctx.count("role_kernels")
         dgcheck.compare_dg(ctx, im)
-        ref = roles.reference_raw(rl)
+        ref = roles.reference_raw(rl, fd)
+        if fd:
+            ctx.count("role_kernels_flag_deps")
         k = im.kernel
 
         def st(i):
